@@ -161,6 +161,9 @@ fn check_len(cx: &mut SCtx) {
     for s in 0..NS {
         if let Some(m) = cx.sets[s].as_ref() {
             let st = m.verif_state();
+            if m.is_empty() != (m.len() == 0) {
+                vio("C13", format!("set {}: is_empty() is {} but len() is {}", s, m.is_empty(), m.len()));
+            }
             if m.len() != cx.refs[s].len() || m.len() != st.main_len + st.old.map_or(0, |o| o.0) {
                 vio("C13", format!("set {}: len() {} but the reference set holds {}", s, m.len(), cx.refs[s].len()));
             }
@@ -321,6 +324,16 @@ fn op_iter(cx: &mut SCtx, s: usize) {
         if it.next().is_some() || it.next().is_some() {
             vio("C08", "HashSet::iter() yielded an element after None".into());
         }
+        // Debug shows the same elements as iteration
+        let t = format!("{:?}", m);
+        let mut d: Vec<u64> = t.trim().trim_start_matches('{').trim_end_matches('}').split(", ").filter_map(|x| x.trim().parse().ok()).collect();
+        d.sort();
+        let mut e: Vec<u64> = l.iter().map(|x| x.0).collect();
+        e.sort();
+        if d != e {
+            vio("C14", format!("Debug of a set shows {} elements, iter() yields {}", d.len(), e.len()));
+            vio("C13", format!("Debug of a set shows {} elements, iter() yields {}", d.len(), e.len()));
+        }
         Out::L(l)
     });
     if let Out::L(mut l) = out {
@@ -480,6 +493,10 @@ fn op_alg(cx: &mut SCtx, kind: u64, a: usize, b: usize, par: Option<usize>) {
             let dup = got.windows(2).any(|w| w[0] == w[1]);
             vio("C13", format!("{} yields {} elements{}, the mathematical result has {} (|a|={} |b|={}) in [{}]",
                 ["difference", "symmetric_difference", "intersection", "union"][(kind % 4) as usize], got.len(), if dup { " with a duplicate" } else { "" }, want.len(), ra.len(), rb.len(), toks));
+            if par.is_some() {
+                vio("C15", format!("parallel {} visits {} elements{}, the sequential one {} in [{}]",
+                    ["difference", "symmetric_difference", "intersection", "union"][(kind % 4) as usize], got.len(), if dup { " (one of them twice)" } else { "" }, want.len(), toks));
+            }
         }
         // every yielded object is the one stored in the operand it came from
         for (k, kid, _) in &l {
@@ -522,6 +539,9 @@ fn op_pred(cx: &mut SCtx, kind: u64, a: usize, b: usize, par: Option<usize>) {
         _ => ra == rb,
     });
     expect(cx, "set predicate", &out, &want, &toks);
+    if par.is_some() && cx.monitors && out != want && !matches!(out, Out::P(_)) {
+        vio("C15", format!("parallel set predicate returned [{}], the sequential definition gives [{}] in [{}]", out_str(&out), out_str(&want), toks));
+    }
     if kind == 3 && cx.monitors && out != want && !matches!(out, Out::P(_)) {
         vio("C14", format!("set == returned [{}] for contents whose equality is [{}] (hashers {} and {}) in [{}]", out_str(&out), out_str(&want), cx.sets[a].as_ref().unwrap().hasher().id, cx.sets[b].as_ref().unwrap().hasher().id, toks));
     }
